@@ -773,8 +773,9 @@ where
 
     #[inline]
     pub(crate) fn read_expect_equals(&mut self) -> Result<Token, ReaderError> {
-        match self.buf.window().first() {
-            Some(b'=') => {
+        match self.buf.window() {
+            // only a lone `=` can be taken without looking further: `==` is one operator
+            [b'=', next, ..] if *next != b'=' => {
                 self.buf.advance(1);
                 Ok(Token::Operator(Operator::Equal))
             }
